@@ -198,6 +198,7 @@ type Walker struct {
 	domains map[string][]string
 	// Statistics.
 	InlinedHelpers map[string]int
+	optMemo        map[*types.Func]bool
 	MaxDepth       int
 	RecLimit       int
 }
@@ -230,6 +231,14 @@ type Run struct {
 	fnStack  []*types.Func
 	sigStack []*types.Signature
 	litPos   []token.Pos // call sites of Printer closures being expanded
+	// Fix answers decisions from outside (E5: a field shape); ok=false leaves
+	// the decision to the exploration. dk is "b:<key>", "v:<key>" or "n:<key>".
+	Fix func(dk string, constRepr string) (ans int, ok bool)
+	// Result of the root function (Start).
+	Result Val
+	// InlineAll: follow every repository function with a body (validation
+	// walks); annotation accessors without an error result stay symbolic.
+	InlineAll bool
 }
 
 func NewWalker(p *Prog) *Walker {
@@ -309,6 +318,36 @@ func (w *Walker) computeEmitters() {
 
 func (w *Walker) IsEmitter(f *types.Func) bool { return w.emitter[f] }
 
+// readsOptions: fn (transitively, within the repository) reads descriptor
+// options: calls proto.GetExtension / proto.HasExtension or a method Options().
+func (w *Walker) readsOptions(fn *types.Func) bool {
+	if w.optMemo == nil {
+		w.optMemo = map[*types.Func]bool{}
+	}
+	if v, ok := w.optMemo[fn]; ok {
+		return v
+	}
+	w.optMemo[fn] = false
+	res := false
+	if decl := w.P.Decls[fn]; decl != nil && decl.Body != nil {
+		info := w.P.DeclPkg[fn].TypesInfo
+		ast.Inspect(decl.Body, func(n ast.Node) bool {
+			if call, ok := n.(*ast.CallExpr); ok {
+				if c := Callee(info, call); c != nil {
+					if c.Name() == "Options" || ((c.Name() == "GetExtension" || c.Name() == "HasExtension") && c.Pkg() != nil && strings.HasSuffix(c.Pkg().Path(), "protobuf/proto")) {
+						res = true
+					} else if w.P.Decls[c] != nil && w.readsOptions(c) {
+						res = true
+					}
+				}
+			}
+			return !res
+		})
+	}
+	w.optMemo[fn] = res
+	return res
+}
+
 // ---------------------------------------------------------------- run
 
 func (w *Walker) NewRun(dec map[string]int, rotate bool) *Run {
@@ -360,6 +399,11 @@ func (r *Run) decide(key string, kind DecKind, arity int, pos token.Pos) int {
 
 // decideBool: arm 0 is def, arm 1 is !def.
 func (r *Run) decideBool(key string, def bool, pos token.Pos) bool {
+	if r.Fix != nil {
+		if a, ok := r.Fix("b:"+key, ""); ok {
+			return a != 0
+		}
+	}
 	c := r.decide("b:"+key, DecBool, 2, pos)
 	if c == 0 {
 		return def
@@ -370,12 +414,22 @@ func (r *Run) decideBool(key string, def bool, pos token.Pos) bool {
 var countArms = []int{1, 0, 2}
 
 func (r *Run) decideCount(key string, pos token.Pos) int {
+	if r.Fix != nil {
+		if a, ok := r.Fix("n:"+key, ""); ok {
+			return a
+		}
+	}
 	return countArms[r.decide("n:"+key, DecCount, 3, pos)]
 }
 
 // valueOf returns the constant (by representation) the symbolic value is
 // taken to equal on this run, or "" for "none of the constants it is compared with".
 func (r *Run) valueIs(key, constRepr string, pos token.Pos) bool {
+	if r.Fix != nil {
+		if a, ok := r.Fix("v:"+key, constRepr); ok {
+			return a != 0
+		}
+	}
 	ek := eraseIters(key)
 	dom := r.W.domains[ek]
 	found := false
@@ -422,7 +476,7 @@ func (r *Run) Start(fn *types.Func) {
 			env.define(o, VSym{Key: n.Name, Typ: o.Type()})
 		}
 	}
-	r.callBody(fn, fn.Type().(*types.Signature), pkg, decl.Type, decl.Body, env)
+	r.Result = r.callBody(fn, fn.Type().(*types.Signature), pkg, decl.Type, decl.Body, env)
 }
 
 func (r *Run) callBody(fn *types.Func, sig *types.Signature, pkg *packages.Package, ft *ast.FuncType, body *ast.BlockStmt, env *Env) Val {
@@ -1452,7 +1506,7 @@ func (r *Run) call(call *ast.CallExpr, env *Env) Val {
 	}
 	decl := r.W.P.Decls[fn]
 	if decl != nil && decl.Body != nil {
-		if r.W.emitter[fn] || r.inlinableHelper(fn, decl) {
+		if r.W.emitter[fn] || r.inlinableHelper(fn, decl) || (r.InlineAll && r.followInValidation(fn)) {
 			return r.inlineDecl(fn, f.Recv, call, env, rt)
 		}
 	}
@@ -1487,8 +1541,15 @@ func (r *Run) call(call *ast.CallExpr, env *Env) Val {
 // isInt64Type, TSScalarTypeForField. They are followed so that the text they
 // return is reconstructed instead of being an opaque hole.
 func (r *Run) inlinableHelper(fn *types.Func, decl *ast.FuncDecl) bool {
-	if fn.Pkg() == nil || !helperPkgs[strings.TrimPrefix(fn.Pkg().Path(), modPath+"/")] {
+	if fn.Pkg() == nil {
 		return false
+	}
+	if rel := strings.TrimPrefix(fn.Pkg().Path(), modPath+"/"); !helperPkgs[rel] {
+		// descriptor predicates of internal/annotations (IsTimestampField …) are
+		// followed; annotation accessors (anything reading proto options) are not.
+		if rel != "internal/annotations" || r.W.readsOptions(fn) {
+			return false
+		}
 	}
 	sig := fn.Type().(*types.Signature)
 	if sig.Results().Len() != 1 {
@@ -1507,6 +1568,24 @@ func (r *Run) inlinableHelper(fn *types.Func, decl *ast.FuncDecl) bool {
 		return simple
 	})
 	return simple
+}
+
+// followInValidation: in validation walks every generator-package function is
+// followed, and in internal/annotations those that can return an error (the
+// rule functions); accessors (Is*/Has*/Get* without error) stay symbolic.
+func (r *Run) followInValidation(fn *types.Func) bool {
+	if fn.Pkg() == nil {
+		return false
+	}
+	rel := strings.TrimPrefix(fn.Pkg().Path(), modPath+"/")
+	if helperPkgs[rel] || rel == "internal/openapiv3" {
+		return true
+	}
+	if rel == "internal/annotations" {
+		res := fn.Type().(*types.Signature).Results()
+		return res.Len() > 0 && isErrorType(res.At(res.Len()-1).Type())
+	}
+	return false
 }
 
 // helperPkgs: packages whose string/bool case tables are followed. The
